@@ -16,6 +16,22 @@ def op(name):
         return f
     return deco
 
+@op("after")
+def _after(a):
+    """[name, [earlier args ...], args]: the operation `name` on `args` after the same operation was called on each of the
+    earlier arguments in this process (failures of the earlier calls ignored).  The answer must be that of a first call:
+    nothing may survive between independent calls."""
+    name, earlier, args = a
+    for e in earlier:
+        try:
+            OPS[name](e)
+        except RecursionError:
+            pass
+        except Exception:
+            pass
+    return OPS[name](args)
+
+
 def load_families():
     import importlib
     here = os.path.join(os.path.dirname(os.path.abspath(__file__)), "impl")
